@@ -148,6 +148,18 @@ class ExcelArrayOps(object):
             return error.VALUE
         return [evaluate_arithmetic('/', b, a) for a, b in zip(self.arr, value)]
 
+    def __and__(self, value):
+        value = self.adapt_value(value)
+        if len(value) != len(self.arr):
+            return error.VALUE
+        return [evaluate_arithmetic('&', a, b) for a, b in zip(self.arr, value)]
+
+    def __rand__(self, value):
+        value = self.adapt_value(value)
+        if len(value) != len(self.arr):
+            return error.VALUE
+        return [evaluate_arithmetic('&', b, a) for a, b in zip(self.arr, value)]
+
 
 def value_and_type(value):
     if isinstance(value, number_types):
@@ -394,6 +406,8 @@ def evaluate_arithmetic(op, lval, rval):
         return OPERATOR_DICT[op](ExcelArrayOps(lval), rval)
     if isinstance(rval, list):
         return OPERATOR_DICT[op](lval, ExcelArrayOps(rval))
+    if op == '&':
+        return text_of(lval) + text_of(rval)
 
     lval, ltype = value_and_type(lval)
     rval, rtype = value_and_type(rval)
